@@ -285,3 +285,54 @@ def narrowing(rep, ws, tus, rule, allow=None, floor=5):
     if not nviol:
         rep.ob('narrow<double>', rule, HOLDS, '%d double-only instantiations reached from the wrappers; no fptrunc to float, no single-precision libm call, no float-returning callee%s'
                % (len(fns), ('; documented exceptions: ' + ', '.join(sorted(set(allowed)))) if allowed else ''))
+
+# ---------------------------------------------------------------- homogeneity-degree intervals (range rule)
+
+def degree_ranges(outs):
+    """Abstract evaluation of value graphs in the domain of homogeneity-degree intervals, one interval per argument base:
+    in -> [1,1] in its own base, const -> [0,0], + and ite -> hull, * -> sum, / -> difference, sqrt -> half.
+    Returns (deg, sites) with deg(node) -> {base: (lo, hi)} and sites = the divisors and sqrt radicands met, as
+    (kind, node, {base: (lo, hi)}).  A divisor of degree 2 in an argument underflows to zero where the argument is
+    still far from the smallest normal number (|x| < sqrt(min)), and overflows where it is far from max."""
+    from fractions import Fraction
+    memo = {}
+    Z = Fraction(0)
+    def hull(ds):
+        r = {}
+        keys = set(k for d in ds for k in d)
+        for k in keys:
+            los = [d.get(k, (Z, Z))[0] for d in ds]; his = [d.get(k, (Z, Z))[1] for d in ds]
+            r[k] = (min(los), max(his))
+        return r
+    def add(x, y, sg=1):
+        r = {}
+        for k in set(x) | set(y):
+            a = x.get(k, (Z, Z)); b = y.get(k, (Z, Z))
+            r[k] = (a[0] + b[0], a[1] + b[1]) if sg > 0 else (a[0] - b[1], a[1] - b[0])
+        return r
+    def deg(n):
+        r = memo.get(n.id)
+        if r is not None: return r
+        op = n.op
+        if op == 'in': r = {n.attr[0]: (Fraction(1), Fraction(1))}
+        elif op == 'fadd': r = hull([deg(a) for a in n.args])
+        elif op == 'fmul':
+            r = {}
+            for a in n.args: r = add(r, deg(a))
+        elif op == 'fdiv': r = add(deg(n.args[0]), deg(n.args[1]), -1)
+        elif op in ('fneg', 'absi', 'fpext', 'fptrunc'): r = deg(n.args[0])
+        elif op == 'call' and n.attr == 'sqrt': r = {k: (v[0] / 2, v[1] / 2) for k, v in deg(n.args[0]).items()}
+        elif op == 'call' and 'fabs' in str(n.attr): r = deg(n.args[0])
+        elif op == 'ite': r = hull([deg(n.args[1]), deg(n.args[2])])
+        else: r = {}
+        memo[n.id] = r
+        return r
+    sites = []
+    seen = set(); st = list(outs)
+    while st:
+        x = st.pop()
+        if x.id in seen: continue
+        seen.add(x.id); st.extend(x.args)
+        if x.op == 'fdiv': sites.append(('divisor', x.args[1], deg(x.args[1])))
+        elif x.op == 'call' and x.attr == 'sqrt': sites.append(('radicand', x.args[0], deg(x.args[0])))
+    return deg, sites
